@@ -761,7 +761,7 @@ impl<K: KeyT, V: ValT> MapWorld<K, V> {
         let kv = op.k == Kd::GetManyKv;
         let base = Self::nv((op.b as u32) & !TOGGLE);
         let fc = self.fctx(si, op);
-        let views: Vec<K::View> = ids.iter().map(|&i| K::view(i)).collect();
+        let views: Vec<K::Holder> = ids.iter().map(|&i| K::view(i)).collect();
         // the unchecked flavours have "no overlapping keys" as their safety precondition: only with pairwise
         // different keys and lawful Hash/Eq
         let distinct = (0..n).all(|i| (0..i).all(|j| ids[i] != ids[j]));
@@ -774,7 +774,7 @@ impl<K: KeyT, V: ValT> MapWorld<K, V> {
         type R = Vec<Option<(u32, u32, u32, usize)>>;
         macro_rules! many {
             ($n:expr) => {{
-                let ks: [&K::View; $n] = std::array::from_fn(|i| &views[i]);
+                let ks: [&K::View; $n] = std::array::from_fn(|i| &*views[i]);
                 if unchecked && kv {
                     let r = unsafe { m.get_many_key_value_unchecked_mut(ks) };
                     r.into_iter()
